@@ -6,7 +6,7 @@ from .. import AnalysisError, tables
 from ..canon import canon, cexpr, linform, single_assignments
 from ..lin import lin_eq, lin_sub, lin_add, linear
 from ..pm import src
-from ..q import FA, call_name, compare_parts, guard_facts, has_fact, walk_no_nested, conjuncts
+from ..q import FA, call_name, compare_parts, conjuncts, guard_facts, has_fact, nfact, nfacts, walk_no_nested
 
 TECHNIQUE = "def-use on the returned threshold, R-LIN integer identities for the three clamps with branch-order checks on the CFG, canonical form of the training floor, reviewed R-ARGMAX table for first-true idioms, R-ORDER on up-front validation"
 
@@ -67,11 +67,8 @@ def run(ctx):
         return out[0] if len(out) == 1 else None
 
     # zero handling
-    z = find_if(lambda t: canon(t, rename=REN) == "n == 0")
-    okz = False
-    if z is not None:
-        inner = [s for s in z.ast.body if isinstance(s, ast.If) and canon(s.test) == "self.min_remove < 1"]
-        okz = len(inner) == 1 and len(inner[0].orelse) == 1 and isinstance(inner[0].orelse[0], ast.Assign) and canon(inner[0].orelse[0], rename=REN) == "n = 1"
+    ones = [nid for nid in fa.find(lambda s_: isinstance(s_, ast.Assign) and canon(s_, rename=REN) == "n = 1")]
+    okz = len(ones) == 1 and {nfact(f"{N} == 0"), nfact("self.min_remove < 1", False)} <= set(nfacts(guard_facts(fa, ones[0])))
     ctx.ob("R-LIN", "C17.2", f, "a method choice of zero removals becomes one removal when min_remove >= 1", okz, "")
     a = find_if(lambda t: _lin_cmp(t, {size: 1, N: -1}, "Lt", {"self.min_samples": 1}))
     ctx.require(a is not None, "min_samples guard `(samples.size - n) < self.min_samples` not found")
@@ -108,15 +105,13 @@ def run(ctx):
     ctx.ob("R-LIN", "C17.2", f, "cap guard: draw_constant and max_samples and (size - n) + nlive > max_samples", okc and len(cj) == 3, f"`{src(c.ast.test)}`")
     ctx.ob("R-LIN", "C17.2", f, "cap clamp: after it the next level holds exactly max_samples: (size - n) + nlive = max_samples", nxt is not None and lin_eq(nxt, {"self.max_samples": 1}), f"`{src(casg[0]) if casg else None}`")
     # order: zero -> A/B -> cap -> threshold
-    order_ok = z is not None and fa.dominates(z.id, a.id) and fa.dominates(a.id, c.id) and fa.dominates(c.id, th[0]) and not fa.cfg.in_loop(a.id)
+    order_ok = len(ones) == 1 and fa.cfg.can_follow(ones[0], a.id) and not fa.cfg.can_follow(a.id, ones[0]) and fa.dominates(a.id, c.id) and fa.dominates(c.id, th[0]) and not fa.cfg.in_loop(a.id)
     ctx.ob("R-ORDER", "C17.2", f, "clamps are applied in the order zero-fix, min_samples/min_remove, max_samples cap, then the threshold is read", order_ok, "")
     recognised = set()
     for st in (asg + b_asg + casg):
         recognised.add(id(st))
-    if z is not None:
-        for x in ast.walk(z.ast):
-            if isinstance(x, ast.Assign) and canon(x, rename=REN) == "n = 1":
-                recognised.add(id(x))
+    for nid_ in ones:
+        recognised.add(id(fa.stmt(nid_)))
     extra = []
     for node in fa.nodes():
         st = node.ast
